@@ -40,6 +40,16 @@ WORKERS = {"quick": 1, "thorough": 14}
 def gen_cases(ctx):
     rng = ctx.rng
     names = ["disjunctive", "agent_task", "with_jobs", "complete", "custom"]
+    for i in range(ctx.scale(2, 56)):
+        # more than 256 operations in one job / on one machine (counters must not wrap around)
+        n = rng.choice([257, 260, 300, 513 if ctx.tier == "thorough" else 258])
+        long_job = [rng.randint(1, 3) for _ in range(n)]
+        inst = {"cls": "long", "durations": [long_job, [2, 1]],
+                "machines": [[[0] if k % 3 else [1] for k in range(n)], [[1], [0]]]}
+        yield {"instance": inst, "filter": None, "policy": rng.choice(["random_ready", "one_job_first"]),
+               "seed": rng.randrange(2**31), "kind": "history", "builder": ["with_jobs", "agent_task"][i % 2],
+               "rm_machines": True, "rm_jobs": True, "initial_reset": False, "abandon_after": None,
+               "attach_after": 0}
     for i in range(ctx.scale(5000, 720000)):
         c = gen_history_case(rng, classes=gen.POSITIVE_CLASSES, max_jobs=rng.choice([2, 3, 4, 5]),
                              max_machines=rng.choice([2, 3, 4]), filters=False)
